@@ -58,7 +58,7 @@ func chance(r *rand.Rand, p float64) bool { return r.Float64() < p }
 
 // GenDef - a random valid program definition.
 func GenDef(r *rand.Rand, p *Profile) Cfg {
-	c := Cfg{Mode: p.Modes[r.Intn(len(p.Modes))], Lower: chance(r, p.Lower)}
+	c := Cfg{Mode: p.Modes[r.Intn(len(p.Modes))], Lower: chance(r, p.Lower), Late: chance(r, 0.3)}
 	um := p.Ums[r.Intn(len(p.Ums))]
 	ro := chance(r, p.Ro)
 	c.Nodes = []NodeCfg{{Name: Tok{}, Parent: 0, Um: um, Ro: ro, Fn: chance(r, 0.7)}}
@@ -113,8 +113,30 @@ func GenDef(r *rand.Rand, p *Profile) Cfg {
 			c.Desc = T("program description")
 		}
 	}
-	// options: names unique along every root..node chain; simplest sound rule: unique over the whole tree
-	taken := map[string]bool{}
+	// options: a name or alias must be unique among the options visible together, i.e. along every root..leaf chain;
+	// sibling commands may (and do) reuse names
+	related := func(a, b int) bool { // is a an ancestor-or-self of b, or the other way round?
+		anc := func(x, y int) bool {
+			for y != 0 {
+				if y == x {
+					return true
+				}
+				y = c.Nodes[y-1].Parent
+			}
+			return false
+		}
+		return anc(a, b) || anc(b, a)
+	}
+	usedAt := map[string][]int{} // name -> nodes that declare it
+	free := func(name string, node int) bool {
+		for _, n := range usedAt[name] {
+			if related(n, node) {
+				return false
+			}
+		}
+		return true
+	}
+	taken := map[string]bool{} // names used anywhere (help / env bookkeeping)
 	nopt := 1 + r.Intn(p.MaxOpts)
 	envN := 0
 	for i := 0; i < nopt; i++ {
@@ -122,19 +144,22 @@ func GenDef(r *rand.Rand, p *Profile) Cfg {
 		if i == 0 && chance(r, p.LoneDash) {
 			name = "-"
 		}
-		if taken[name] {
+		node := 1 + r.Intn(len(c.Nodes))
+		if !free(name, node) {
 			continue
 		}
+		usedAt[name] = append(usedAt[name], node)
 		taken[name] = true
 		kind := pick(r, p.Kinds)
-		o := OptCfg{Kind: kind, Name: T(name), Node: 1 + r.Intn(len(c.Nodes)), Min: 1, Max: 1, UseVar: chance(r, 0.5)}
+		o := OptCfg{Kind: kind, Name: T(name), Node: node, Min: 1, Max: 1, UseVar: chance(r, 0.5)}
 		na := r.Intn(3)
 		if !chance(r, 0.5+p.Aliases/2) {
 			na = 0
 		}
 		for j := 0; j < na; j++ {
 			a := pick(r, namePool)
-			if !taken[a] {
+			if free(a, node) {
+				usedAt[a] = append(usedAt[a], node)
 				taken[a] = true
 				o.Aliases = append(o.Aliases, T(a))
 			}
